@@ -454,8 +454,13 @@ EXTRA_TEXT = {
  "C13": (" THIRD WAVE (props/C13c.v): to_entries, from_entries, to_entries|from_entries = id and with_entries(.) = id as theorems "
          "about the reference evaluator Sem APPLIED TO THE CURRENT builtin.jq (coq/gen/GenBuiltins.v, regenerated every run; the "
          "definitions a proof depends on are pinned by reflexivity, so an edit of builtin.jq breaks the obligation, not only a hash): "
-         "exact equations between runs for every well-formed object, every consumer and every fuel above a stated bound; further "
-         "laws as recorded in docs/C13.md. 30 theorems."),
+         "exact equations between runs for every well-formed object, every consumer and every fuel above a stated bound. "
+         "props/C13d.v, same style: tostream over Sem — its generator path(def r: (.[]?|r), .; r) is the children-first walk of the "
+         "value for every value and every fuel above 7 x (number of nodes) + 14, and for a well-formed value the observation of "
+         "tostream is EXACTLY the events of the value (leaf event [p, leaf] with getpath(p) = leaf in document order, closing event "
+         "after the last child of every non-empty container); paths and path(..) are the same pre-order walk, path(..) emits the root "
+         "[] first and paths drops exactly that path: [paths] = [path(..)] minus the root, same order, for every value. "
+         "fromstream(tostream) and the setpath replay remain theorems over the hand transcriptions (props/C13.v). 39 theorems."),
  "C14": (" Implementation oracle capture-names: with Go's SubexpNames as the independent source, every capture of every match carries "
          "its group's name (also non-participating groups) and capture has exactly the named groups as keys."),
  "C15": (" SECOND WAVE (props/C15b.v, 18 theorems, closed): the command FROM ARGV - cli_main = flags parser (coq/c08 over the "
@@ -498,7 +503,7 @@ NOTE_REPLACE = {
           "PARTIAL: the parser and printer are now modelled in full and tied exactly on every corresponded program, but LR soundness/completeness for ARBITRARY token lists is not proved: the unbounded round trip and spacing-insensitivity of the AST hold for the operator sublanguage (C09), print_tokens for the stated sub-grammar, the rest by finite theorems over the real tables with their bounds and by the model-level round trip on every corresponded program (C09_full / C09c_full kept as Definitions).")],
  "C12": [(" -r/-j/--raw-output0 are modelled and compared, without a theorem.", " The raw modes are theorems of props/C12.v and C12c.v.")],
  "C13": [("Closed under the global context (no axioms). jq-defined pairs are proved over Gallina transcriptions of the builtin.jq text, tied by correspondence.",
-          "props/C13.v and C13b.v: closed under the global context. props/C13c.v (over coq/sem): the Reals axioms Flocq's binary64 brings in (sig_not_dec, sig_forall_dec, functional_extensionality_dep, classic). The entries pairs are proved BOTH over Gallina transcriptions (tied by correspondence and text hashes) and over the evaluator applied to the regenerated builtin.jq (C13c); the stream / paths pairs only over the transcriptions unless docs/C13.md says otherwise.")],
+          "props/C13.v and C13b.v: closed under the global context. props/C13c.v (over coq/sem): the Reals axioms Flocq's binary64 brings in (sig_not_dec, sig_forall_dec, functional_extensionality_dep, classic). The entries pairs are proved BOTH over Gallina transcriptions (tied by correspondence and text hashes) and over the evaluator applied to the regenerated builtin.jq (C13c); tostream events and paths likewise (C13d); fromstream(tostream) and the setpath replay only over the transcriptions.")],
  "C17": [("Three known findings: lone-CR terminators before the window (2), --stream offsets from dec.Token().",
           "One known finding: --stream offsets from dec.Token() (the two lone-CR window findings were repaired by repo commit d5617da).")],
  "C15": [("Flag parsing is not part of this model (C08 models parseFlags);", "Flag parsing is C08's model, composed with this one in props/C15b.v (cli_main); --stream / --yaml-input decoders are not replicated by the argv stream (such vectors run with -n or are skipped and counted);")],
